@@ -34,6 +34,7 @@ import (
 	"path/filepath"
 	"regexp"
 	"sort"
+	"strconv"
 	"strings"
 
 	"github.com/ethereum/go-ethereum/rlp"
@@ -2897,6 +2898,33 @@ func c13RunVariant(c *fw.C, caseID string, v c13Variant) {
 			report("accepted-normalized")
 		default:
 			report("rejected")
+		}
+	}
+
+	// "seen before": in every second case B has heard and verified the honest block already, and a rollback of its
+	// last momentum (re-inserted at once) has emptied its pool again — the same long-lived node, no restart — before
+	// the third party's variant arrives. Whatever B remembers about the hash must not make the variant acceptable.
+	if idx := strings.LastIndex(caseID, ":"); idx >= 0 && v.field != "none" && B.Height() >= 3 {
+		if n, _ := strconv.Atoi(caseID[idx+1:]); n%2 == 1 {
+			herr := gossip(B, c13WireBlocks([]*nom.AccountBlock{honest})[0])
+			if herr == nil {
+				top := B.Frontier()
+				batch := c13WireBatch(B.Range(top.Height, top.Height))
+				prev, _ := B.Chain.GetFrontierMomentumStore().GetMomentumByHeight(top.Height - 1)
+				ins := B.Chain.AcquireInsert("c13 seen-before")
+				rerr := B.Chain.RollbackTo(ins, prev.Identifier())
+				ins.Unlock()
+				if rerr == nil {
+					rerr = insert(B, batch)
+				}
+				if rerr != nil || B.Chain.GetPatch(honest.Address, honest.Identifier()) != nil {
+					inconclusive("could not empty B's pool after the honest block was heard: %v", rerr)
+					return
+				}
+				detail["seen_before"] = "B verified the honest block by gossip, then a rollback + re-insert of its last momentum emptied its pool"
+				c.Count("variants_offered_to_a_node_that_verified_the_honest_block_before", 1)
+				key += "/seen-before"
+			}
 		}
 	}
 
